@@ -598,7 +598,7 @@ class Explorer:
                 if rv[0] == 'agg' and rv[1][0] == 'adt':
                     events = events | {('agg', rv[1][1], rv[1][3])}
                 elif rv[0] == 'agg' and rv[1][0] in ('closure', 'coroutine', 'coroutine_closure'):
-                    events = events | {('mkclosure', rv[1][1])}
+                    events = events | {('mkclosure', rv[1][1], val)}
                 if not projs:
                     nm = names.get(loc)
                     if nm in self.force_domain and not ground(val):
@@ -947,7 +947,7 @@ class Explorer:
         crec = self.facts.fn(name) if fd.get('local') or self.facts.fn(name) is not None else None
         inl = crec is not None and depth < self.inline_depth and not any(name.startswith(p) or name == p for p in self.no_inline)
         if inl and self.inline_only is not None:
-            inl = any(name.startswith(p) for p in self.inline_only)
+            inl = any(name.startswith(p) or name.startswith('<' + p) for p in self.inline_only)
         if inl and crec.get('coroutine'):
             inl = False
         if inl:
